@@ -413,7 +413,21 @@ func MakeForeign(r *rng.R, opts ForeignOpts) *Foreign {
 	hasNumbering := r.Bool()
 	if hasNumbering {
 		w.feature("numbering")
-		f.put("word/numbering.xml", hdr+`<w:numbering xmlns:w="`+nsW+`"><w:abstractNum w:abstractNumId="5"><w:lvl w:ilvl="0"><w:start w:val="3"/><w:numFmt w:val="upperRoman"/><w:lvlText w:val="%1)"/></w:lvl></w:abstractNum><w:num w:numId="7"><w:abstractNumId w:val="5"/></w:num></w:numbering>`)
+		// what Word writes around the definitions: picture bullets before them, numIdMacAtCleanup after the last w:num; a second pair
+		// of definitions so that new ones have to be placed between existing elements
+		head, mid, tailEl := "", "", ""
+		if r.Chance(1, 3) {
+			head = `<w:numPicBullet w:numPicBulletId="0"><w:pict/></w:numPicBullet>`
+		}
+		if r.Bool() {
+			mid = `<w:abstractNum w:abstractNumId="9"><w:multiLevelType w:val="hybridMultilevel"/><w:lvl w:ilvl="0"><w:start w:val="1"/><w:numFmt w:val="bullet"/><w:lvlText w:val="o"/></w:lvl></w:abstractNum>`
+			tailEl = `<w:num w:numId="12"><w:abstractNumId w:val="9"/><w:lvlOverride w:ilvl="0"><w:startOverride w:val="4"/></w:lvlOverride></w:num>`
+		}
+		if r.Bool() {
+			tailEl += `<w:numIdMacAtCleanup w:val="12"/>`
+			w.feature("numIdMacAtCleanup")
+		}
+		f.put("word/numbering.xml", hdr+`<w:numbering xmlns:w="`+nsW+`">`+head+`<w:abstractNum w:abstractNumId="5"><w:lvl w:ilvl="0"><w:start w:val="3"/><w:numFmt w:val="upperRoman"/><w:lvlText w:val="%1)"/></w:lvl></w:abstractNum>`+mid+`<w:num w:numId="7"><w:abstractNumId w:val="5"/></w:num>`+tailEl+`</w:numbering>`)
 		ovr("word/numbering.xml", "application/vnd.openxmlformats-officedocument.wordprocessingml.numbering+xml")
 		w.rel("numbering", "numbering.xml", false)
 	}
